@@ -22,6 +22,20 @@ func c06(c *Check) {
 	n := c.Frozen("C06")
 	c.Extra["frozen_entries"] = n
 
+	c.Rule("C06/only-packet-contract-logs-drive-the-module", "frozen table (shared with C04/hook): the send hook makes its privileged calls (setSequence from the module account) only for PacketSent logs emitted by the packet contract address itself, log by log; a look-alike log of another contract in the same receipt is not acted on", 5)
+	c.FrozenFiltered("C04", "C06/only-packet-contract-logs-drive-the-module", func(fn string) bool { return strings.HasSuffix(fn, "Hooks.PostTxProcessing") })
+	c.Rule("C06/accepted-update-is-stored", "every success path of the client keeper's UpdateClient stores the new client state exactly once: an accepted TSS rotation (whose height never advances) replaces the account that may drive the bridge", 1)
+	{
+		fn := c.F(clKeeper + "Keeper.UpdateClient")
+		paths := c.PathCounts(fn, func(cs *CallSite) bool { return strings.HasSuffix(cs.Name, "keeper.(Keeper).SetClientState") })
+		ok := len(paths) > 0
+		for _, p := range paths {
+			if p.Count != 1 {
+				ok = false
+			}
+		}
+		c.Req(ok, "C06/accepted-update-is-stored", funcName(fn), fn.Pos(), fmt.Sprint(len(paths), " success path(s)"), "a success path of UpdateClient does not execute SetClientState exactly once")
+	}
 	c.Rule("C06/positive-answers-only-under-chain-match", "AuthRelayer / GetRelayerAddressOnOtherChain: every return whose boolean answer is not the constant false is dominated by the chain == chainName test on an element of the signer's record", 2)
 	for _, spec := range []struct {
 		fn  string
